@@ -3,7 +3,7 @@ from ..runner import Case
 from .. import gen
 
 ID = "C04"
-LEAN_TARGETS = ["Cider.Props.C04"]
+LEAN_TARGETS = ["Cider.Props.C04", "Cider.Props.C04Tie"]
 P = "Cider.C04."
 THEOREMS = [P + t for t in (
     "gen_charge_eq_published", "gen_kd_eq_published", "gen_kdUversky_eq_published", "gen_ww_eq_published",
